@@ -396,7 +396,13 @@ func (c *skelChecker) entryPoints(ru *report.Rule) {
 			ok := len(calls) == 1 && calls[0].callee == objKey(target) && len(calls[0].args) == len(want) && !hasOtherGroupOps(sk.norm)
 			if ok {
 				for j, a := range calls[0].args {
-					if strings.TrimPrefix(a, "[]") != want[j] {
+					// "p2", "[]p2" (a slice built element by element from p2) or
+					// "p2.inner" (the Edwards representation inside a Ristretto wrapper type)
+					a = strings.TrimPrefix(a, "[]")
+					if i := strings.IndexByte(a, '.'); i >= 0 {
+						a = a[:i]
+					}
+					if a != want[j] {
 						ok = false
 					}
 				}
